@@ -283,6 +283,15 @@ def run(ctx: Any, prog: Program) -> None:
                 return 'rot+pos?'
             return 'rot'
         return '?'
+    # what is done with a value is decided by its *type* alone: a return placed in front of the type dispatch (`if not value: return value`)
+    # takes blank values out of every arm - a blank vector is the local origin and has to be moved like "0 0 0"
+    fk_body = [b for b in fk.body if not (isinstance(b, ast.Expr) and isinstance(b.value, ast.Constant))]
+    first_dispatch = next((i for i, b in enumerate(fk_body) if isinstance(b, ast.If) and any(isinstance(x, ast.Attribute) and dotted(x.value) == 'ValueTypes' for x in ast.walk(b.test))), None)
+    ctx.shape('C17.N3', first_dispatch is not None, ins, fk, 'fixup_key dispatches on ValueTypes members', func='Instance.fixup_key', text='fixup_key type dispatch')
+    if first_dispatch is not None:
+        early_ = [r for b in fk_body[:first_dispatch] for r in ast.walk(b) if isinstance(r, ast.Return)]
+        ctx.check('C17.N3', not early_, ins, early_[0] if early_ else fk, f'fixup_key returns (`{U(early_[0])[:40] if early_ else ""}`) before looking at the type of the keyvalue: values caught by that test are not rotated, moved or '
+                  'renamed whatever their type (a blank position keeps pointing at the world origin instead of the instance origin)', func='Instance.fixup_key', text='fixup_key: no return before the type dispatch')
     arms = {}
     for n in walk_no_nested(fk):
         if isinstance(n, ast.If):
@@ -383,6 +392,15 @@ def run(ctx: Any, prog: Program) -> None:
                     continue
                 stores = [a for a in h.body if isinstance(a, ast.Assign) and any(isinstance(t, ast.Subscript) and isinstance(t.value, ast.Name) and t.value.id == ent_var and dotted(t.slice) == key_var for t in a.targets)
                           and dotted(a.value) == val_var]
+                # ... on every path: the only way out of the arm before the store is the `$`-prefixed pseudo key of func_instance
+                if stores:
+                    for pre in h.body[:h.body.index(stores[0])]:
+                        for leave in [x for x in ast.walk(pre) if isinstance(x, (ast.Continue, ast.Return, ast.Break))]:
+                            guard_ = next((a_ for a_ in _anc17(ins, leave, h) if isinstance(a_, ast.If)), None)
+                            pseudo = guard_ is not None and any(isinstance(c_, ast.Call) and isinstance(c_.func, ast.Attribute) and c_.func.attr == 'startswith' and c_.args and isinstance(c_.args[0], ast.Constant) and c_.args[0].value == '$'
+                                                                for c_ in ast.walk(guard_.test))
+                            ctx.check('C17.N8', pseudo, ins, leave, f'the arm for keys unknown to the FGD is left (`{U(guard_.test)[:60] if guard_ is not None else "unconditionally"}`) before the substituted text is stored: whether a '
+                                      '`$variable` in such a key is replaced then depends on that test - with the warn-once set, on whether the same (class, key) was seen earlier in the process', text='unknown keys: no way out before the store')
                 ctx.check('C17.N8', bool(stores), ins, h, f'a keyvalue the entity definition does not list is skipped without storing the substituted text: `"{{key}}" "$var"` keeps the literal `$var` in the collapsed map',
                           text='unknown keys keep the substituted text')
 
@@ -664,6 +682,8 @@ def n6_substitute(ctx: Any, vm: Any) -> None:
 
 
 MUTANTS = [
+    {'id': 'unknown_key_skipped_when_already_warned', 'file': 'instancing.py', 'find': "                if (classname, key) not in _UNKNOWN_KV:\n                    LOGGER.warning('Unknown keyvalue {}.{}', classname, key)\n                    _UNKNOWN_KV.add((classname, key))\n                # We don't know the type", 'replace': "                if (classname, key) in _UNKNOWN_KV:\n                    continue\n                LOGGER.warning('Unknown keyvalue {}.{}', classname, key)\n                _UNKNOWN_KV.add((classname, key))\n                # We don't know the type", 'expect': 'C17.N8'},
+    {'id': 'fixup_key_blank_early_out', 'file': 'instancing.py', 'find': "        # All three of these types are absolute positions.\n        if type is ValueTypes.VEC or", 'replace': "        if not value:\n            return value\n        # All three of these types are absolute positions.\n        if type is ValueTypes.VEC or", 'expect': 'C17.N3'},
     {'id': 'angles_parsed_from_raw_text', 'file': 'instancing.py', 'find': "        angles = Angle.from_str(inst.fixup.substitute(new_ent['angles'], ''))", 'replace': "        angles = Angle.from_str(new_ent['angles'])", 'expect': 'C17.N8'},
     {'id': 'unknown_key_keeps_variable', 'file': 'instancing.py', 'find': "                # We don't know the type, but variables still need to be substituted.\n                new_ent[key] = value\n", 'replace': "", 'expect': 'C17.N8'},
     {'id': 'origin_computed_before_substitution', 'file': 'instancing.py', 'find': "        angles = Angle.from_str(inst.fixup.substitute(new_ent['angles'], ''))", 'replace': "        ent_pos = Vec.from_str(new_ent['origin']) @ orient + origin\n        angles = Angle.from_str(inst.fixup.substitute(new_ent['angles'], ''))", 'extra': [{'file': 'instancing.py', 'find': "                new_ent['origin'] = str(Vec.from_str(value) @ orient + origin)", 'replace': "                new_ent['origin'] = str(ent_pos)"}], 'expect': 'C17.N8'},
